@@ -142,3 +142,20 @@ Section Split.
              replace (S k - i) with (S (k - i)) by lia. cbn [binom]. ring.
   Qed.
 End Split.
+
+(* more facts about sub-sequences *)
+Lemma sublist_refl {A} (l : list A) : sublist l l.
+Proof. induction l; constructor; assumption. Qed.
+Lemma sublist_app {A} (a b c d : list A) : sublist a b -> sublist c d -> sublist (a ++ c) (b ++ d).
+Proof.
+  intros H1 H2. induction H1 as [l|x a' l H IH|x a' l H IH]; cbn.
+  - induction l as [|y l IHl]; cbn; [exact H2|apply sub_skip; exact IHl].
+  - apply sub_take. exact IH.
+  - apply sub_skip. exact IH.
+Qed.
+Lemma sublist_map {A B} (f : A -> B) (a b : list A) : sublist a b -> sublist (map f a) (map f b).
+Proof. induction 1; cbn; constructor; assumption. Qed.
+Lemma sublist_length {A} (a b : list A) : sublist a b -> length a <= length b.
+Proof. induction 1; cbn; lia. Qed.
+Lemma sublist_filter_l {A} (p : A -> bool) (l : list A) : sublist (filter p l) l.
+Proof. induction l as [|a l IH]; cbn; [constructor|]. destruct (p a); constructor; exact IH. Qed.
